@@ -135,6 +135,8 @@ ToolchainInv == TypeOK /\ FailureIsDiagnosed /\ OutputsComeFromSuccess
 (*   exit_code        the process exit status (negative = killed by signal)*)
 (*   signal           terminating signal number or 0                       *)
 (*   timed_out        the wall-clock limit expired and the driver killed it*)
+(*                    (a spinning process is stopped earlier by the CPU    *)
+(*                    time limit and shows up as signal SIGXCPU)           *)
 (*   n_error_diags    lines of stderr starting with "error"                *)
 (*   n_warning_diags  lines of stderr starting with "warning"              *)
 (*   names_file       the input path occurs in stderr                      *)
@@ -160,8 +162,9 @@ ObservedOutcome(e) ==
 HasMark(e, m) == \E i \in 1..Len(e.marks) : e.marks[i] = m
 
 \* A name for what was observed -- used only to *report* a rejected event.
+SIGXCPU == 24          \* the driver's CPU-time limit (RLIMIT_CPU) expired
 ObservedKind(e) ==
-    IF e.timed_out THEN "Timeout"
+    IF e.timed_out \/ e.signal = SIGXCPU THEN "Timeout"
     ELSE IF e.signal # 0 \/ e.exit_code >= 128 \/ e.exit_code < 0 THEN
         IF HasMark(e, "has overflowed its stack") THEN "StackOverflow"
         ELSE IF HasMark(e, "memory allocation of") THEN "OutOfMemory"
